@@ -372,7 +372,7 @@ PROPS = {
         'assumptions': ["H-AEAD", "H-RND"],
     },
     'C04': {
-        'proofs': ['Ww.Proofs.C04Lemmas', 'Ww.Proofs.C04'],
+        'proofs': ['Ww.Proofs.C04Lemmas', 'Ww.Proofs.C04', 'Ww.Proofs.C04Abs'],
         'gen_sections': [],
         'drivers': [{'name': 'c04'}],
         'reasons': ['C04.'],
